@@ -1533,6 +1533,8 @@ impl<T: Transport, Env: UtpEnvironment> VirtualSocket<T, Env> {
             pending_if_cannot_send!(self.process_all_incoming_messages(cx));
 
             // Flow control: flush as many in-order messages to user RX as possible.
+            self.user_rx
+                .set_window_granularity(self.segment_sizes.mss() as usize);
             bail_if_err!(self.user_rx.flush(cx).map(|_| ()));
 
             if self
